@@ -49,7 +49,12 @@ impl PeerIdInfo {
 //@|        &&& ret is Err ==> ret->Err_0 == InvalidNewConnectionId }),
 }
 
-pub struct PeerIdRegistry { pub registered_ids: Vec<PeerIdInfo>, pub retire_prior_to: u32, pub transmission_interest: MemoX }
+pub struct AckSetX { pub set: Ghost<Set<int>> }
+impl AckSetX {
+    #[verifier::external_body]
+    pub fn contains(&self, pn: u64) -> (r: bool) ensures r == self.set@.contains(pn as int) { unimplemented!() }
+}
+pub struct PeerIdRegistry { pub registered_ids: Vec<PeerIdInfo>, pub retire_prior_to: u32, pub transmission_interest: MemoX, pub ack_interest: MemoX }
 impl PeerIdRegistry {
 //@ splice-fn quic/s2n-quic-transport/src/connection/peer_id_registry.rs "PeerIdRegistry" check_active_connection_id_limit vis=strip dropstmt=debug_assert_eq!
 //@| ensures ret is Err <==> active_id_count > 3, ret is Err ==> ret->Err_0 == ExceededActiveConnectionIdLimit,
@@ -107,5 +112,21 @@ impl PeerIdRegistry {
         let mut active_id_count = active_in;
 //@ splice-stmts quic/s2n-quic-transport/src/connection/peer_id_registry.rs "PeerIdRegistry" on_new_connection_id "from=if !is_duplicate"
         Ok(active_id_count)
+    }
+
+    // ---- on_packet_loss: one registered entry -- a lost RETIRE_CONNECTION_ID is sent again, for the same sequence number ---------
+    fn on_packet_loss_loop_body(&mut self, id_info: &mut PeerIdInfo, ack_set: &AckSetX)
+        ensures
+            final(id_info).id == old(id_info).id && final(id_info).sequence_number == old(id_info).sequence_number
+                && final(id_info).stateless_reset_token == old(id_info).stateless_reset_token,
+            final(id_info).status == (match old(id_info).status {
+                PendingAcknowledgement(pn) => if ack_set.set@.contains(pn as int) { PendingRetirementRetransmission } else { old(id_info).status },
+                _ => old(id_info).status,
+            }),
+            // a retired id never becomes active again
+            active(final(id_info).status) == active(old(id_info).status),
+            final(self).retire_prior_to == old(self).retire_prior_to, final(self).registered_ids == old(self).registered_ids,
+    {
+//@ splice-stmts quic/s2n-quic-transport/src/connection/peer_id_registry.rs "PeerIdRegistry" on_packet_loss "from=for id_info in self" inner=1
     }
 }
